@@ -4,8 +4,9 @@ import DuneVerif.Gen.C08
 
 Core Lean only.  Everything is generic over a scalar type `K` with the core arithmetic classes, an order with
 decidable comparisons, and explicit `sqrt` / `acos` / `cos` parameters, so that the same definitions run over
-`Rat` in the line-protocol driver (exactly, on inputs whose square roots are rational) and are instantiated at `ℝ`
-with `Real.sqrt` in `Props/C08.lean`.
+`Rat` in the line-protocol driver (exactly, on inputs whose square roots are rational), over `Float` (IEEE double, the
+operation order of the C++ source is kept, so that the `double` instantiation of the code is reproduced) and are
+instantiated at `ℝ` with `Real.sqrt` in `Props/C08.lean`.
 
 The straight-line arithmetic and all threshold constants come from `DuneVerif/Gen/C08.lean`, which the translator
 regenerates from the current `fmatrixev.hh`; this file adds the control flow:
@@ -15,9 +16,13 @@ regenerates from the current `fmatrixev.hh`; this file adds the control flow:
 * `eigenValues2d`, `eigenVectorChoice2d`, `eigenVectors2d`, `eigenValuesVectors2d` — the 2x2 closed form with the
   clamp of slightly negative discriminants, the identity special case with the code's threshold, the choice of the
   larger column of `A - λI` (Cayley–Hamilton) and the normalisation;
-* `eigenValues3dImpl`, `eig0`, `eigenValues3d`, `eigenValuesVectors3d` — the 3x3 path: scaling by the max norm, the
-  diagonal test, the trigonometric form, the eigenvector from the largest cross product of two rows of `A - λI`,
-  the jointly sorted diagonal special case (the assembly of the remaining two eigenvectors, `eig1`, is not modelled);
+* `eigenValuesVectors1d` — the 1x1 specialisation;
+* `eigenValues3dImpl`, `eig0`, `orthoComp`, `eig1`, `trigVectors`, `sortPairs3`, `eigenValues3d`, `eigenValuesVectors3d`
+  — the whole 3x3 path: scaling by the max norm, the diagonal test, the trigonometric form (with the determinant of
+  `B` in the operation order of `DenseMatrix::determinant`, translated), the eigenvector from the largest cross product
+  of two rows of `A - λI`, the orthonormal complement, the second eigenvector from the 2x2 reduced system with all its
+  branches, the third as a cross product, the stable sort of the (value, vector) pairs, and the jointly sorted
+  diagonal special case;
 * `packRowMajor`, `packColMajor`, `fortranView`, `unpackRowMajor`, … — the row-major ↔ column-major hand-over to LAPACK
   as index arithmetic on flat arrays.
 
@@ -74,6 +79,14 @@ def absK (x : K) : K := if x < (zero : K) then -x else x
 
 /-- `std::max(a, b)` = `(a < b) ? b : a` -/
 def maxK (a b : K) : K := if a < b then b else a
+
+/-! ## 1x1 -/
+
+/-- `eigenValuesVectorsImpl` for 1x1: `eigenValues[0] = matrix[0][0]; eigenVectors[0] = {1.0}` -/
+def eigenValuesVectors1d (a : K) : K × K := (a, one)
+
+/-- `FMatrixHelp::eigenValues` for 1x1 -/
+def eigenValues1d (a : K) : K := a
 
 /-! ## 2x2 -/
 
@@ -174,6 +187,9 @@ def det3 (A : M3 K) : K :=
   (A.a00 * (A.a11 * A.a22 - A.a12 * A.a21) - A.a01 * (A.a10 * A.a22 - A.a12 * A.a20))
     + A.a02 * (A.a10 * A.a21 - A.a11 * A.a20)
 
+/-- `DenseMatrix::determinant()` for 3x3 in the operation order of the source (translated block) -/
+def det3m (A : M3 K) : K := Gen.det3 A.a00 A.a01 A.a02 A.a10 A.a11 A.a12 A.a20 A.a21 A.a22
+
 /-- `A - λ I` -/
 def shift3 (A : M3 K) (l : K) : M3 K := { A with a00 := A.a00 - l, a11 := A.a11 - l, a22 := A.a22 - l }
 
@@ -210,7 +226,7 @@ def eigenValues3dImpl (sqrt acos cos : K → K) (pi eps : K) (A : M3 K) : (K × 
     let p2 := Gen.ev3_p2 A.a00 A.a01 A.a02 A.a10 A.a11 A.a12 A.a20 A.a21 A.a22 q p1
     let p := Gen.ev3_p sqrt p2
     let B := smul3 (Gen.ev3_Bscale p) (shift3 A q)
-    let r := clampK (Gen.ev3_r (det3 B)) Gen.ev3_clampLo Gen.ev3_clampHi
+    let r := clampK (Gen.ev3_r (det3m B)) Gen.ev3_clampLo Gen.ev3_clampHi
     let phi := Gen.ev3_phi acos r
     let l2 := Gen.ev3_lam2 cos q p phi pi
     let l0 := Gen.ev3_lam0 cos q p phi pi
@@ -246,27 +262,118 @@ def eig0 (sqrt : K → K) (A : M3 K) (ev : K) : V3 K :=
   else if imax = 1 then ⟨c02.x / d1, c02.y / d1, c02.z / d1⟩
   else ⟨c12.x / d2, c12.y / d2, c12.z / d2⟩
 
+/-- `DenseMatrix::mv`: `y[i] = 0; for j: y[i] += A[i][j] * x[j]` -/
+def mv3 (A : M3 K) (x : V3 K) : V3 K :=
+  ⟨(((zero : K) + A.a00 * x.x) + A.a01 * x.y) + A.a02 * x.z,
+   (((zero : K) + A.a10 * x.x) + A.a11 * x.y) + A.a12 * x.z,
+   (((zero : K) + A.a20 * x.x) + A.a21 * x.y) + A.a22 * x.z⟩
+
+/-- `DenseVector::dot`: `result = 0; for i: result += x[i] * y[i]` -/
+def dotv3 (u w : V3 K) : K := (((zero : K) + u.x * w.x) + u.y * w.y) + u.z * w.z
+
+/-- `Impl::orthoComp`: a right-handed orthonormal set `{u, v, evec0}` for a unit vector `evec0` -/
+def orthoComp (sqrt : K → K) (e : V3 K) : V3 K × V3 K :=
+  let u : V3 K :=
+    if absK e.y < absK e.x then
+      -- `temp = {evec0[0], evec0[2]}; L = 1.0 / temp.two_norm(); u = L * {-evec0[2], 0.0, evec0[0]}`
+      let L := (one : K) / sqrt (((zero : K) + e.x * e.x) + e.z * e.z)
+      ⟨L * (-e.z), L * (zero : K), L * e.x⟩
+    else
+      -- `temp = {evec0[1], evec0[2]}; L = 1.0 / temp.two_norm(); u = L * {0.0, evec0[2], -evec0[1]}`
+      let L := (one : K) / sqrt (((zero : K) + e.y * e.y) + e.z * e.z)
+      ⟨L * (zero : K), L * e.z, L * (-e.y)⟩
+  (u, cross e u)
+
+/-- `a*u - b*v` -/
+def comb3 (a : K) (u : V3 K) (b : K) (v : V3 K) : V3 K :=
+  ⟨a * u.x - b * v.x, a * u.y - b * v.y, a * u.z - b * v.z⟩
+
+/-- `Impl::eig1`: unit eigenvector for `ev1` orthogonal to the unit eigenvector `e0`, from the 2x2 system
+`M = Jᵀ (A - ev1 I) J`, `J = [u, v]`; the largest row of `M` is used, `u` if `M = 0`. -/
+def eig1 (sqrt : K → K) (A : M3 K) (e0 : V3 K) (ev1 : K) : V3 K :=
+  let uv := orthoComp sqrt e0
+  let u := uv.1
+  let v := uv.2
+  let Au := mv3 A u
+  let Av := mv3 A v
+  let m00 := dotv3 u Au - ev1
+  let m01 := dotv3 u Av
+  let m11 := dotv3 v Av - ev1
+  let a00 := absK m00
+  let a01 := absK m01
+  let a11 := absK m11
+  if a11 ≤ a00 then
+    if (zero : K) < maxK a00 a01 then
+      if a01 ≤ a00 then
+        let m01 := m01 / m00
+        let m00 := (one : K) / sqrt ((one : K) + m01 * m01)
+        let m01 := m01 * m00
+        comb3 m01 u m00 v
+      else
+        let m00 := m00 / m01
+        let m01 := (one : K) / sqrt ((one : K) + m00 * m00)
+        let m00 := m00 * m01
+        comb3 m01 u m00 v
+    else u
+  else
+    if (zero : K) < maxK a11 a01 then
+      if a01 ≤ a11 then
+        let m01 := m01 / m11
+        let m11 := (one : K) / sqrt ((one : K) + m01 * m01)
+        let m01 := m01 * m11
+        comb3 m11 u m01 v
+      else
+        let m11 := m11 / m01
+        let m01 := (one : K) / sqrt ((one : K) + m11 * m11)
+        let m11 := m11 * m01
+        comb3 m11 u m01 v
+    else u
+
+/-- stable insertion sort of three (value, vector) pairs by value (`std::sort` with `x.first < y.first` on a
+3-element range is libstdc++'s insertion sort) -/
+def sortPairs3 (a b c : K × V3 K) : (K × V3 K) × (K × V3 K) × (K × V3 K) :=
+  let pq : (K × V3 K) × (K × V3 K) := if b.1 < a.1 then (b, a) else (a, b)
+  let p := pq.1
+  let q := pq.2
+  if c.1 < q.1 then (if c.1 < p.1 then (c, p, q) else (p, c, q)) else (p, q, c)
+
+/-- the trigonometric branch of the 3x3 eigenvector code: `eig0` for the better separated extreme eigenvalue
+(`r >= 0`: the largest), `eig1` for the middle one, the cross product for the third, then the sort of the pairs -/
+def trigVectors (sqrt : K → K) (S : M3 K) (l : K × K × K) (r : K) : (K × V3 K) × (K × V3 K) × (K × V3 K) :=
+  if r < (zero : K) then
+    let e0 := eig0 sqrt S l.1
+    let e1 := eig1 sqrt S e0 l.2.1
+    let e2 := cross e0 e1
+    sortPairs3 (l.1, e0) (l.2.1, e1) (l.2.2, e2)
+  else
+    let e2 := eig0 sqrt S l.2.2
+    let e1 := eig1 sqrt S e2 l.2.1
+    let e0 := cross e1 e2
+    sortPairs3 (l.1, e0) (l.2.1, e1) (l.2.2, e2)
+
 /-- one compare-and-swap step of the joint bubble sort of the diagonal special case -/
 def swapIf (c : Bool) (p : (K × V3 K) × (K × V3 K)) : (K × V3 K) × (K × V3 K) :=
   if c then (p.2, p.1) else p
 
-/-- `FMatrixHelp::eigenValuesVectors` for 3x3: eigenvalues, and the eigenvectors in the diagonal special case
-(`none`: the trigonometric branch, whose eigenvectors come from `eig0`/`eig1` and are floating-point matters) -/
-def eigenValuesVectors3d (sqrt acos cos : K → K) (pi eps : K) (A : M3 K) : (K × K × K) × Option (V3 K × V3 K × V3 K) :=
+/-- the test `offDiagNorm <= epsilon` of the eigenvector routine on the scaled matrix -/
+def diagBranchVec (eps : K) (S : M3 K) : Bool := decide (norm2_3 ⟨S.a01, S.a02, S.a12⟩ ≤ Gen.ev3_vecThreshold eps)
+
+/-- `FMatrixHelp::eigenValuesVectors` for 3x3: eigenvalues and eigenvectors (rows of `eigenVectors`) -/
+def eigenValuesVectors3d (sqrt acos cos : K → K) (pi eps : K) (A : M3 K) : (K × K × K) × (V3 K × V3 K × V3 K) :=
   let m := maxAbsElement A
   let S := sdiv3 A m
-  let l := (eigenValues3dImpl sqrt acos cos pi eps S).1
-  let offDiag := norm2_3 ⟨S.a01, S.a02, S.a12⟩
-  if offDiag ≤ Gen.ev3_vecThreshold eps then
+  let lr := eigenValues3dImpl sqrt acos cos pi eps S
+  if diagBranchVec eps S then
     let e0 : K × V3 K := (S.a00, ⟨one, zero, zero⟩)
     let e1 : K × V3 K := (S.a11, ⟨zero, one, zero⟩)
     let e2 : K × V3 K := (S.a22, ⟨zero, zero, one⟩)
     let (e0, e1) := swapIf (decide (e1.1 < e0.1)) (e0, e1)
     let (e1, e2) := swapIf (decide (e2.1 < e1.1)) (e1, e2)
     let (e0, e1) := swapIf (decide (e1.1 < e0.1)) (e0, e1)
-    ((e0.1 * m, e1.1 * m, e2.1 * m), some (e0.2, e1.2, e2.2))
+    ((e0.1 * m, e1.1 * m, e2.1 * m), (e0.2, e1.2, e2.2))
   else
-    ((l.1 * m, l.2.1 * m, l.2.2 * m), none)
+    let t := trigVectors sqrt S lr.1 lr.2
+    ((t.1.1 * m, t.2.1.1 * m, t.2.2.1 * m), (t.1.2, t.2.1.2, t.2.2.2))
 
 end
 
